@@ -39,7 +39,8 @@ RULE = ('per case 1..6 update_theta_sketch inputs (lg_k 5..10, p in {1, 0.5, 0.0
         'result fed back as an input; intersections likewise (stateful reuse, has_result, get_result before any update refused); A-not-B on all '
         'ordered pairs in all form combinations (sort-based path for ordered x ordered, hash-based otherwise) incl. the early returns; Jaccard / '
         'exactly_equal on pairs incl. the same object and equal sets in different forms, ratio bounds on (union, intersection) pairs; a sketch '
-        'with a different seed is offered to every operation (refused); '
+        'with a different seed is offered to every operation (refused); two seed-independent directed cases (case splits of the proofs; reset/reuse of '
+        'unions whose own table has rebuilt, with exact- and estimation-mode inputs afterwards, intersections updated after get_result); '
         'non-trivial = the case runs at least one set operation over a non-empty input')
 TRUSTED = ['MurmurHash3 model coq/Murmur3.v and coq/Canon.v (exercised against the implementation by every update: the model hashes the items itself)',
            'std::nth_element is modelled by its postcondition (coq/KSmallest.v nth_post); the theorems hold for every function meeting it',
@@ -147,6 +148,12 @@ def gen(rng, tier):
                 if pi == 0 and j == 0:
                     ops.append([11, u, alien, rng.choice(ALL_FORMS)])   # seed mismatch: refused, state unchanged
             ops.append([12, u, 0]); ops.append([12, u, 1, 60])    # result kept in register 60
+            if pi == 0 and rng.random() < 0.6:
+                # reset the (possibly rebuilt, theta-lowered) union and reuse the same object: nothing of round 1 may survive
+                ops.append([13, u]); ops.append([12, u, 1])
+                for r in rng.sample(sk, rng.randrange(1, len(sk) + 1)):
+                    ops.append([11, u, r, form_of(r)])
+                ops.append([12, u, 0]); ops.append([12, u, 1, 60])
             if pi == 0:
                 # the result as an input of a second union; reset and reuse
                 u2 = new_union()
@@ -206,7 +213,7 @@ def gen(rng, tier):
         if any(op[0] == 8 and op[3] > uk for op in ops): tags.add('union-trims')
         cases.append(dict(id='ts%d' % ci, ops=ops, tags=sorted(tags), cost=sum((op[3] if op[0] == 8 else 30) for op in ops)))
     cases.sort(key=lambda c: -c['cost'])
-    return [directed_case()] + cases
+    return [directed_case(), directed_reuse_case()] + cases
 
 def directed_case():
     """Fixed scenarios at the case splits of the proofs (independent of the seed): two disjoint exact-mode sketches and an
@@ -341,6 +348,41 @@ def oracle(case, irecs, mrecs):
                 if est != want or (exact and (lb, ub) != (want, want)):
                     fail('ratio_exact', 'ratio bounds {%r, %r, %r}, counts give %d/%d = %r (exact=%d)' % (lb, est, ub, cb, ca, want, exact), i)
     return fails
+
+def directed_reuse_case():
+    """Stateful reuse after the object's own table has rebuilt: unions of lg_k 5 and 6 are fed more than 15/8*k (and more than
+       2k) distinct hashes in one or in several inputs, so table_.theta_ drops below the starting theta and get_result trims;
+       then get_result, reset, get_result (empty again), reuse with small exact-mode inputs and with estimation-mode inputs,
+       get_result; twice over.  Intersections likewise keep being updated after get_result."""
+    S = 9001; ops = []
+    ops.append([1, 0, 10, 0, P_ONE, S]); ops.append([8, 0, 1, 500])                  # big, exact mode (500 < 15/8 * 1024)
+    for j in range(1, 6):                                                            # five exact-mode sketches of 45 items, disjoint
+        ops.append([1, j, 7, 0, P_ONE, S]); ops.append([8, j, 10000 + 45 * j, 45])
+    ops.append([1, 6, 5, 0, P_ONE, S]); ops.append([8, 6, 20000, 20])                # small, exact mode
+    ops.append([1, 7, 5, 0, P_ONE, S]); ops.append([8, 7, 30000, 200])               # estimation mode (own theta < MAX)
+    ops.append([1, 8, 5, 0, P_ONE, S]); ops.append([8, 8, 20010, 25])                # small, overlaps 6
+    ops.append([1, 9, 6, 0, fbits(0.5), S]); ops.append([8, 9, 40000, 30])           # p = 0.5, few retained
+    u = 100
+    for lgk, pb in ((5, P_ONE), (6, P_ONE), (5, fbits(0.5)), (6, fbits(0.5))):
+        for round1 in ([0], [1, 2, 3, 4, 5], [7, 0], [1, 2, 7, 3]):
+            u += 1; ops.append([10, u, lgk, (u % 4), pb, S])
+            for r in round1:
+                ops.append([11, u, r, (r + u) % 8])
+            ops.append([12, u, 1]); ops.append([12, u, 0])
+            ops.append([13, u]); ops.append([12, u, 1])                              # reset: empty again
+            ops.append([11, u, 6, u % 8]); ops.append([12, u, 1]); ops.append([12, u, 0])       # 20 exact-mode hashes: all 20 retained
+            ops.append([11, u, 8, (u + 3) % 8]); ops.append([12, u, 1])
+            ops.append([13, u])
+            ops.append([11, u, 7, (u + 1) % 8]); ops.append([12, u, 0])              # estimation-mode input after the second reset
+            ops.append([11, u, 9, (u + 2) % 8]); ops.append([11, u, 6, (u + 5) % 8]); ops.append([12, u, 1, 60])
+            ops.append([13, u]); ops.append([11, u, 60, (u + 4) % 8]); ops.append([12, u, 1])   # its own earlier result fed back
+    x = 200
+    for order in ([0, 7, 6], [6, 8, 0], [1, 0, 2], [0, 0, 7, 9], [7, 8, 6, 0], [9, 6, 8]):
+        x += 1; ops.append([20, x, S])
+        for r in order:
+            ops.append([21, x, r, (r + x) % 8]); ops.append([23, x]); ops.append([22, x, r % 2]); ops.append([22, x, 1, 61])
+        ops.append([21, x, 61, x % 8]); ops.append([22, x, 0])                       # its own result fed back: unchanged
+    return dict(id='ts_reuse', ops=ops, tags=['setops', 'directed', 'reuse'], cost=0)
 
 FAMILIES = [dict(name='thetaset', harness='drv_thetaset.cpp', extract='Extract_thetaset.v', model='model_thetaset', gen=gen, oracle=oracle)]
 
